@@ -18,9 +18,11 @@ MkCfg(r, g, a, d) == [reclaim |-> r, gossipDead |-> g, allowOn |-> a, aliveDeleg
 \* quick: reclaim off / on, allowlist off / on
 CfgsQuick == {MkCfg(0, 1, FALSE, FALSE), MkCfg(1, 1, TRUE, FALSE)}
 CfgsFull  == {MkCfg(r, 1, a, d) : r \in {0, 1}, a \in BOOLEAN, d \in BOOLEAN}
+CfgsMid   == {MkCfg(0, 1, FALSE, FALSE), MkCfg(1, 1, TRUE, FALSE), MkCfg(1, 1, FALSE, TRUE), MkCfg(0, 1, TRUE, TRUE)}
 
 MetasQuick == {"m0", "m1"}
 MetasFull  == {"m0", "m1", "mv"}
 VsnsQuick  == {VOk, VBad}
 VsnsFull   == {VOk, VOk2, VBad, VShort, VNone}
+VsnsMid    == {VOk, VOk2, VBad, VShort}
 =============================================================================
